@@ -145,6 +145,11 @@ def expected_frame(fn, own, ncall, ev, nstates):
     elif tn in (T + 'change_action', T + 'change_action_and_state', T + 'change_action_and_states'):
         exp['tmpl'] = (first_tmpl(ca), exp['tmpl'][1])
     elif tn == T + 'change_control': exp['tmpl'] = (exp['tmpl'][0], first_tmpl(ca))
+    elif tn == T + 'signed_rule_with_action':
+        # documented design of this rule: it parses signed_rule_new with its own conversion action under the default control
+        exp['tmpl'] = ('tao::pegtl::internal::signed_action_action' if own['A'] == 1 else 'tao::pegtl::nothing', 'tao::pegtl::normal')
+    elif tn == T + 'signed_rule':
+        exp['tmpl'] = ('tao::pegtl::nothing', 'tao::pegtl::normal'); exp['A'] = 1
     if tn in (I + 'state', T + 'change_state', T + 'change_action_and_state'):
         exp['states'] = (('local', first_type(ca)),)
     elif tn in (T + 'change_states', T + 'change_action_and_states'):
